@@ -103,6 +103,16 @@ def gen_scenario(r, cls: str) -> Dict[str, Any]:
     sc["symbols"] = symbols
     sc["pairs"] = pairs
     sc["explicit_pair_info"] = [i for i in range(len(pairs)) if r.random() < 0.4]
+    # pair-specific precisions: one symbol may be rounded differently in two of its pairs (BTC as the base of BTC/USD
+    # and as the quote of ETH/BTC)
+    sc["pair_prec"] = {}
+    if ["ETH", "BTC"] in pairs and cls != "ample" and r.random() < 0.5:
+        i = pairs.index(["ETH", "BTC"])
+        qp_ = r.choice([p_ for p_ in (2, 4, 6, 8) if p_ != symbols["BTC"]])
+        bp_ = r.choice([symbols["ETH"], symbols["ETH"], r.choice([0, 2, 5])])
+        sc["pair_prec"]["ETH/BTC"] = [bp_, qp_]
+        if i not in sc["explicit_pair_info"]:
+            sc["explicit_pair_info"].append(i)
     quote = "USD"
 
     # ---- configuration -----------------------------------------------------------------
@@ -127,7 +137,8 @@ def gen_scenario(r, cls: str) -> Dict[str, Any]:
     vol_mult = [D(x) for x in ("1", "0.37", "2.5", "1.111")]
     vols = [a * b for a in vol_units for b in vol_mult]
     if cls == "ample":
-        vols = [D("1000000")]
+        # the liquidity model of this class ignores volume: a bar without volume matches orders like any other
+        vols = [D("1000000")] * 5 + [D("0")]
     bars: Dict[str, List] = {}
     same_times = r.random() < 0.6
     for i, (b, qs) in enumerate(pairs):
@@ -135,7 +146,7 @@ def gen_scenario(r, cls: str) -> Dict[str, Any]:
         if qs == "BTC":
             start = D(r.choice(["0.05", "0.5", "3"]))
         steps = (1,) if same_times else (1, 1, 1, 2)
-        bl = gen_bars(r, nbars, symbols[qs], start, vols, step_choices=steps)
+        bl = gen_bars(r, nbars, sc["pair_prec"].get(f"{b}/{qs}", [0, symbols[qs]])[1], start, vols, step_choices=steps)
         shift = bl[0][0] - 1          # every pair has its first bar at t=1: a price exists before any handler runs
         for row in bl:
             row[0] -= shift
@@ -157,6 +168,10 @@ def gen_scenario(r, cls: str) -> Dict[str, Any]:
             init["ETH"] = _s(q(D(r.choice(["0", "0", "10", "3.5"])), symbols["ETH"]))
         if cls == "margin" and r.random() < 0.3:
             init = {k: "0" for k in init}       # empty account: only borrowing can fund anything
+    if lend is not None and cls != "ample" and r.random() < 0.25:
+        # the account is opened with a debt (negative initial balance): borrowed funds without a loan behind them
+        s_ = r.choice(sorted(k for k in init if k in symbols))
+        init[s_] = "-" + _s(q(D({"USD": r.choice(["100", "10000"]), "JPY": "100000"}.get(s_, r.choice(["1", "2", "30"]))), symbols[s_]))
     sc["init"] = {k: v for k, v in init.items() if k in symbols}
 
     # ---- strategy script -----------------------------------------------------------------
@@ -164,7 +179,7 @@ def gen_scenario(r, cls: str) -> Dict[str, Any]:
     density = {"long": [0, 0, 1, 1, 2], "long_q": [0, 0, 1, 1, 2], "feesliq": [1, 2, 3, 4, 6], "margin": [0, 1, 2, 3]}.get(cls, [0, 1, 1, 2, 3])
     for pname, blist in bars.items():
         b, qs = pname.split("/")
-        bprec, qprec = symbols[b], symbols[qs]
+        bprec, qprec = sc["pair_prec"].get(pname, [symbols[b], symbols[qs]])
         for bi, (t, o, h, low, c, v) in enumerate(blist):
             acts: List[Dict[str, Any]] = []
             close = D(c)
